@@ -66,6 +66,19 @@ class GhostStack:
             return self.top[-1]
         return ("base", self.name, self.d0 - self.popped - 1)
 
+    def __delitem__(self, sl):
+        """del stack[start:] -- truncate to `start` elements (start relative to the unknown bottom part)"""
+        if not (isinstance(sl, slice) and sl.stop is None and sl.step is None):
+            raise symx.EngineLimit("unsupported deletion on a ghost stack")
+        start = sl.start
+        k = z3.simplify((self.depth() - start).t) if isinstance(self.depth() - start, SymInt) else self.depth() - start
+        if not isinstance(k, int):
+            if not z3.is_int_value(k):
+                raise symx.EngineLimit("ghost stack truncated to a depth that is not a constant offset from the bottom")
+            k = k.as_long()
+        for _ in range(max(k, 0)):
+            self.pop()
+
     def snapshot(self):
         return (self.popped, list(self.top))
 
@@ -175,6 +188,9 @@ def sec_stack(chk):
                     ctx.prove(_b(outcome == "boom"), "exception in the body propagates out of the context")
                     ctx.prove(_b((S.snapshot(), R.snapshot()) == before),
                               "exception in the body: both stacks are restored all the same")
+                elif body == "extra-push-raises":
+                    # the property does not say which of the two errors wins; it must not be swallowed
+                    ctx.prove(_b(outcome in ("runtime", "boom")), "unbalanced body that raises: an exception leaves the context")
                 else:
                     ctx.prove(_b(outcome == "runtime"), "unbalanced body: leaving the context raises RuntimeError")
             chk.explore(run_ctx, tag=f"context/{body}/{seedkind}")
